@@ -540,6 +540,14 @@ func (en *Env) evalCall(x ECall) Term {
 	if err != nil {
 		en.fail("%v", err)
 	}
+	if sd.Ghost {
+		key := ghostKey(sd)
+		keyTypes[key] = resTy
+		if len(sd.Params) == 0 {
+			return en.mk(c.heapGet(en.cur, key), resTy)
+		}
+		return en.mk(app("select", c.heapGet(en.cur, key), a[0].S), resTy)
+	}
 	if sd.Body != nil && !sd.Rec {
 		if en.depth > 40 {
 			en.fail("spec expansion too deep at %s", x.Fun)
@@ -573,6 +581,13 @@ func (en *Env) evalCall(x ECall) Term {
 		as = append(as, t.S)
 	}
 	return en.mk(app(name, as...), resTy)
+}
+
+func ghostKey(sd *SpecDef) string {
+	if len(sd.Params) == 0 {
+		return "gg:" + sd.Name
+	}
+	return "gh:" + sd.Name
 }
 
 // declareSpec emits the declaration of an uninterpreted spec function once.
@@ -621,6 +636,15 @@ func (c *FnCtx) loadStruct(s *State, ref string, sty types.Type) Term {
 
 // assignKeys computes the heap keys named by a contract's assigns clauses (type-only evaluation).
 func (e *Engine) assignKeys(fc *FuncContract, fn *ssa.Function) []string {
+	var keys []string
+	for _, g := range e.assignKeyGroups(fc, fn) {
+		keys = append(keys, g...)
+	}
+	return keys
+}
+
+// assignKeyGroups: one list of keys per assigns clause.
+func (e *Engine) assignKeyGroups(fc *FuncContract, fn *ssa.Function) [][]string {
 	if fc.Pure || len(fc.Assigns) == 0 {
 		return nil
 	}
@@ -630,21 +654,21 @@ func (e *Engine) assignKeys(fc *FuncContract, fn *ssa.Function) []string {
 	c := newFnCtx(e, fn, fc)
 	vars, err := c.contractParamDummies(fc, fn)
 	if err != nil {
-		return []string{"!error:" + err.Error()}
+		return [][]string{{"!error:" + err.Error()}}
 	}
 	st := &State{heap: map[string]string{}, armed: map[*ssa.Defer]string{}}
 	en := &Env{c: c, vars: vars, cur: st, old: st, pkg: fc.PkgPath}
-	var keys []string
+	var groups [][]string
 	for _, a := range fc.Assigns {
 		lv, err := en.EvalLValue(a.E)
 		if err != nil {
-			keys = append(keys, "!error:"+err.Error())
+			groups = append(groups, []string{"!error:" + err.Error()})
 			continue
 		}
-		keys = append(keys, lv.keys...)
+		groups = append(groups, lv.keys)
 	}
-	fc.assignKeysMemo = keys
-	return keys
+	fc.assignKeysMemo = groups
+	return groups
 }
 
 // An assignable location named in an assigns clause.
@@ -721,6 +745,20 @@ func (en *Env) EvalLValue(e Expr) (loc assignLoc, err error) {
 				return assignLoc{keys: en.c.eng.structFieldKeys(ty), all: true}, nil
 			}
 			return assignLoc{keys: []string{fieldKey(ty, fs.V)}, all: true}, nil
+		default:
+			if sd := en.c.eng.cs.LookupSpec(en.pkg, x.Fun); sd != nil && sd.Ghost {
+				resTy, err := en.c.eng.resolveType(sd.PkgPath, sd.Result)
+				if err != nil {
+					en.fail("%v", err)
+				}
+				key := ghostKey(sd)
+				keyTypes[key] = resTy
+				if len(sd.Params) == 0 {
+					return assignLoc{keys: []string{key}, all: true}, nil
+				}
+				base := en.eval(x.Args[0])
+				return assignLoc{keys: []string{key}, ref: base.S}, nil
+			}
 		case "global":
 			ns, ok := x.Args[0].(EStr)
 			if !ok {
